@@ -470,10 +470,50 @@ class _Gen(object):
         self.probes(steps, r.randint(1, 2), after_abort=True)
         return {'config': self.cfg, 'steps': steps}
 
+    def ladder_program(self):
+        """one entry point, the same arguments, a ladder of precisions (ascending, descending or up-down), every
+        rung judged against the pristine state: 'never reused at a lower accuracy than requested', entry by entry"""
+        r = self.rng
+        actor = 'mp'
+        keys = []
+        for g in GROUPS:
+            keys.extend(GROUPS[g])
+        ents = [catalogue.BY_KEY[k] for k in sorted(set(keys)) if k in catalogue.BY_KEY]
+        if r.random() < 0.3:
+            ents = catalogue.entries(ctx='mp', maxcost=2)
+        ents = [e for e in ents if 'mp' in e.ctxs and e.cost <= 2 and e.key not in EXCLUDE and not e.key.endswith('_vhi')
+                and (not e.cb or e.key in ('quad', 'quadgl', 'quad_lor', 'quadts', 'nsum', 'diff'))]
+        e = r.choice(ents)
+        self.cfg['ladder'] = e.key
+        hi = min(e.maxprec, 700)
+        ps = sorted(set(pick_prec(r, hi) for _ in range(r.randint(2, 4))))
+        if len(ps) < 2:
+            ps.append(min(e.maxprec, ps[0] + 37))
+        order = r.choice(['asc', 'asc', 'desc', 'updown'])
+        seq = ps if order == 'asc' else (ps[::-1] if order == 'desc' else ps + ps[-2::-1])
+        steps = []
+        first = None
+        last = None
+        for p in seq:
+            steps.append(self.setprec(actor, p))
+            st = self.call(actor, e, judge=True, reuse=first, rel='equal' if last is None else ('above' if p > last else 'below'))
+            if first is None:
+                first = st
+            steps.append(st)
+            self.hist_calls.append(st)
+            last = p
+            if r.random() < 0.25:
+                steps.append(self.call(actor, e, judge=True, rel='equal'))     # other arguments on the same rung
+        self.probes(steps, r.randint(1, 3))
+        return {'config': self.cfg, 'steps': steps}
+
     def program(self):
         r = self.rng
-        if r.random() < 0.2:
+        c0 = r.random()
+        if c0 < 0.2:
             return self.sitesweep_program()
+        if c0 < 0.32:
+            return self.ladder_program()
         steps = []
         if 'c1' in self.actors:
             steps.append({'kind': 'clone', 'actor': 'c1', 'parent': 'mp', 'id': self.new_id()})
